@@ -38,6 +38,9 @@ type Gen struct {
 	declNames map[string]bool
 }
 
+// verifiedDeps: dependency packages some of whose functions are verified (not merely assumed): their bodies are built too.
+var verifiedDeps = map[string]bool{"github.com/cosmos/cosmos-sdk/x/nft/keeper": true}
+
 func LoadGen(repoDir, verifDir string, patterns []string, overlay map[string][]byte) (*Gen, error) {
 	cfg := &packages.Config{Mode: packages.LoadAllSyntax, Dir: repoDir, BuildFlags: []string{"-tags=verif"}, Overlay: overlay,
 		Env: append(os.Environ(), "GOFLAGS=-mod=mod", "GOPROXY=off", "GOSUMDB=off", "GOTOOLCHAIN=local")}
@@ -63,7 +66,7 @@ func LoadGen(repoDir, verifDir string, patterns []string, overlay map[string][]b
 		funcIndex: map[string]*ssa.Function{}}
 	packages.Visit(pkgs, nil, func(p *packages.Package) { g.allPkgs[p.PkgPath] = p })
 	for _, sp := range prog.AllPackages() {
-		if strings.HasPrefix(sp.Pkg.Path(), repoPrefix) {
+		if strings.HasPrefix(sp.Pkg.Path(), repoPrefix) || verifiedDeps[sp.Pkg.Path()] {
 			sp.Build()
 		}
 	}
@@ -402,7 +405,7 @@ func (g *Gen) writtenGlobals() map[string]bool {
 		return nil
 	}
 	for _, sp := range g.prog.AllPackages() {
-		if !strings.HasPrefix(sp.Pkg.Path(), repoPrefix) {
+		if !strings.HasPrefix(sp.Pkg.Path(), repoPrefix) && !verifiedDeps[sp.Pkg.Path()] {
 			continue
 		}
 		var fns []*ssa.Function
